@@ -49,6 +49,13 @@ CHECKS = {
         technique=MC_TECH + " (all operation compositions up to a depth bound x boundary index probes, differential against plain-vector reference)",
         design="DESIGN.md §4 C08",
     ),
+    "C09": dict(
+        category="exploration",
+        text="Every ordered pair of a ~110-element boundary set of doubles (zeros, subnormals, one-ulp neighbours of 1 and 2^53, +-max, powers of ten, shift counts) under every arithmetic, comparison, bitwise and shift operator and two-argument std math function; every element under every unary operator and one-argument std math function; every pair under 15 coherence laws (trichotomy, != <= >=, sort/set/setMember/uniq/member/count/equals agreement) and every triple of a subset under std.clamp. Results are read from the value (bit pattern) and through manifestation + correctly rounded re-parse.",
+        note="Trusted: Rust f64 arithmetic/libm as the IEEE reference; i128 arithmetic for shift overflow. Shift counts >= 64, unary ~ outside the safe range and std.round on exact halves are not judged.",
+        technique=MC_TECH + " (all pairs/triples of a boundary set of doubles under every numeric operation, compared with IEEE reference operations)",
+        design="DESIGN.md §4 C09",
+    ),
 }
 
 
